@@ -120,6 +120,7 @@ class C10(ExprProp):
     """Theorems C10_floor/ceil/round(+_char)/builtin_*/arity_*: num-rational's integer algorithms (mirrored in the model) equal the order-theoretic floor, ceiling, round-half-away and round-to-n-digits for every rational; unit carried through; wrong arity is an error. Correspondence on a boundary grid."""
     id = "C10"
     needs_knobs = True
+    extra_modules = ["Anything.Props.C10Query"]
     module = "Anything.Props.C10"
     trusted = ["Spec.Arith.floorI/ceilI/roundHalfAway/roundTo are human input (order-theoretic definitions)"]
 
